@@ -20,6 +20,8 @@ Definition DOT : N := 46.
 Definition ADMIN : str := [97; 100; 109; 105; 110].
 Definition TRUSTED : str := [116; 114; 117; 115; 116; 101; 100].
 
+Definition str_in (s : str) (l : list str) : bool := existsb (seq_eqb s) l.
+
 Definition F0 : flags := Flags false false false.
 (* ircdb.checkCapability(msg.prefix, cap): the database snapshot [d] is the
    view of msg.prefix (user lookup is an input, as in C03) *)
@@ -146,6 +148,40 @@ Definition inbody_check (holds_cap : bool) (text : str) (raise_kw : option bool)
        | EncReplied t => BReply t :: rest        (* falls through *)
        | EncNothing => rest                      (* falls through *)
        end.
+
+(* ---- Channel._voice (plugins/Channel/plugin.py:190-205): the one command helper of the bundled plugins that
+   picks the capability it requires from its ARGUMENTS (commands `channel voice` and `channel devoice`) ----
+     if nicks:
+         if len(nicks) == 1 and msg.nick in nicks: capability = 'voice'
+         else: capability = 'op'
+     else:
+         nicks = [msg.nick]; capability = 'voice'
+     capability = ircdb.makeChannelCapability(channel, capability)
+     if ircdb.checkCapability(msg.prefix, capability): self._sendMsgs(irc, nicks, f)      (MODE +v/-v on nicks)
+     else: irc.errorNoCapability(capability) *)
+Definition VOICE : str := [118; 111; 105; 99; 101].
+Definition voice_word (nicks : list str) (caller : str) : str :=
+  match nicks with
+  | [] => VOICE
+  | _ => if Nat.eqb (length nicks) 1 && str_in caller nicks then VOICE else OP     (* `in` on a list of str: exact comparison *)
+  end.
+Definition voice_targets (nicks : list str) (caller : str) : list str :=
+  match nicks with [] => [caller] | _ => nicks end.
+
+Inductive vout :=
+| VMode (targets : list str)      (* the MODE change is sent for these nicks *)
+| VDenied (cap : str)             (* irc.errorNoCapability(cap): aborted (C01_denial_aborts) *)
+| VRaise (e : exn).
+Definition voice_body (d : db) (channel : str) (nicks : list str) (caller : str) : vout :=
+  match makeChannelCapability channel (voice_word nicks caller) with
+  | Raise e => VRaise e
+  | Ok cap =>
+      match holds d cap with
+      | Ok true => VMode (voice_targets nicks caller)
+      | Ok false => VDenied cap
+      | Raise e => VRaise e
+      end
+  end.
 
 (* ---- converters ---- *)
 Record cstate := CS { s_chan : option str;     (* state.channel *)
@@ -401,8 +437,6 @@ Definition pluginCall (d : db) (p : dsp) (inner : list event) : res (list event)
   else do ig <- checkIgnored (p_ign_chan p);
        if ig then Ok [] else doPrivmsg d p inner.
 
-(* ---- inventory predicates (computed on gen/T01.v by C01/Inventory.v) ---- *)
-Definition str_in (s : str) (l : list str) : bool := existsb (seq_eqb s) l.
 
 (* ---- wire ---- *)
 Definition vPyv (v : pyv) : value :=
@@ -478,6 +512,10 @@ Definition run (v : value) : value :=
   | 6 => (* errorNoCapability (text raise_kw) -> (0 text) raise | (1 text) replied+returned | (2) returned *)
          match errorNoCapability (gS (nth_v 0 p)) (gO gB (nth_v 1 p)) with
          | EncRaise t => L [I 0%Z; vS t] | EncReplied t => L [I 1%Z; vS t] | EncNothing => L [I 2%Z]
+         end
+  | 7 => (* Channel._voice (db channel nicks caller) -> (0 targets) | (1 cap) | (2 exn) *)
+         match voice_body (gDb (nth_v 0 p)) (gS (nth_v 1 p)) (gLS (nth_v 2 p)) (gS (nth_v 3 p)) with
+         | VMode t => L [I 0%Z; vLS t] | VDenied c => L [I 1%Z; vS c] | VRaise e => L [I 2%Z; I (exn_code e)]
          end
   | _ => L []
   end.
